@@ -512,15 +512,47 @@ def explore_unit(unit):
 def run(cfg):
     logging.disable(logging.CRITICAL)
     rep = runner.Report('C14', 'model_checking')
-    bound = cfg.pick(1, 2)
     confs = scripts(cfg.quick)
     units = []
+
+    def is3(c):
+        return len(c['callers']) == 3
+
+    def plain_order(c):         # responses in request order or in reverse order
+        return 'answers req0>req1>req2' in c['name'] or 'answers req2>req1>req0' in c['name']
+
+    # Plan (measured on 16 idle cores: one 3-caller script at 1 preemption = 1.1 M executions / 170 s, a 2-caller script
+    # at 2 preemptions = 160 k executions / 27 s; the complete product "every script at 2 preemptions" is days):
+    #   every 1- and 2-caller script                                   1 preemption   (both tiers)
+    #   thorough: every 1-caller script                                2 preemptions
+    #             2-caller: the 16 scripts of `two2` (whole frames, faults after 0/1 answers, a fault inside an answer, a
+    #                       split frame, drain suspends, call || close)                                          2
+    #             3-caller: whole frames / eof / reset after 0 and 1 answers, answers in request or reverse order     0
+    #             3-caller: eof / reset after 0 answers, eof after 1 answer, request order         1 preemption
+    #   line-level (source lines of call/_listen/_run/_cleanup_pending_responses are scheduling points), 1 preemption:
+    #             quick 1, thorough 12 two-caller fault scripts + the 3-caller "eof after 0 answers" script
+    two2 = ('2 callers, answers req0>req1, whole frames', '2 callers, answers req1>req0, whole frames',
+            '2 callers, answers req0>req1, eof after 0 answers', '2 callers, answers req0>req1, reset after 0 answers',
+            '2 callers, answers req0>req1, eof after 1 answers', '2 callers, answers req1>req0, eof after 0 answers',
+            '2 callers, answers req1>req0, eof after 1 answers', '2 callers, answers req0>req1, reset after 1 answers',
+            '2 callers, answers req0>req1, eof inside answer 1 (in_body)', '2 callers, answers req0>req1, eof inside answer 2 (in_body)',
+            '2 callers, answers req0>req1, #1 split3', '2 callers, answers req0>req1, whole frames, drain suspends',
+            '2 callers, eof after 0 answers, drain suspends',
+            'call || close, both served', 'call || close, close served first', 'call || close, only close served')
+    three1 = ('3 callers, answers req0>req1>req2, eof after 0 answers', '3 callers, answers req0>req1>req2, reset after 0 answers',
+              '3 callers, answers req0>req1>req2, eof after 1 answers')
     try:
         for conf in confs:
-            # thorough: 2 preemptions for the one-caller scripts and the two-caller scripts without cut responses
-            # (measured: 2 preemptions on every script is > 1 h on 16 cores); everything else 1
-            small = len(conf['callers']) == 1 or (conf['name'] in ('call || close, both served', 'call || close, only close served'))
-            b = bound if small else 1
+            if is3(conf):
+                if not (plain_order(conf) and ('whole frames' in conf['name'] or 'after 0 answers' in conf['name']
+                                               or 'after 1 answers' in conf['name'])):
+                    conf['bound'] = None        # enumerated by scripts(), not explored: listed in the evidence
+                    continue
+                b = 1 if conf['name'] in three1 else 0
+            elif cfg.quick:
+                b = 1
+            else:
+                b = 2 if (len(conf['callers']) == 1 or conf['name'] in two2) else 1
             conf['bound'] = b
             h = run_conf(conf, [])
             units.append((conf, 'root-only', b, False))
@@ -529,9 +561,10 @@ def run(cfg):
         # line-level mode on the configurations where a caller can register while the listener is failing the others
         ll = [c for c in confs if c['name'].startswith('2 callers') and ('eof after 0' in c['name'] or 'reset after 0' in c['name']
                                                                          or 'eof after 1' in c['name'])]
+        ll = ll[:cfg.pick(1, 12)]
         if not cfg.quick:
-            ll += [c for c in confs if c['name'].startswith('3 callers') and 'eof after 0' in c['name']][:2]
-        for conf in ll[:cfg.pick(1, 12)]:
+            ll += [c for c in confs if c['name'] == '3 callers, answers req0>req1>req2, eof after 0 answers']
+        for conf in ll:
             h = run_conf(conf, [], True)
             units.append((conf, 'root-only', 1, True))
             for cost, a in _alternatives(h.sched, 0, 1):
@@ -547,7 +580,7 @@ def run(cfg):
         return t
 
     total = {}
-    for part in runner.pmap(worker, units, cfg, chunk=4, pin=True):
+    for part in runner.pmap(worker, units, cfg, chunk=2, pin=True, deadline_s=4 * 3600):
         runner.merge_counts(total, part)
     rep.extend_violations(total.get('violations', []))
     outcomes = total.get('outcomes', {})
@@ -558,7 +591,11 @@ def run(cfg):
         'samples': [{'config': c['name'], 'callers': c['callers'], 'script': [list(a) for a in c['script']]}
                     for c in (confs[0], confs[len(confs) // 3], confs[-1])],
         'exhaustive': True,
-        'bound_completed': {'scripts at 2 preemptions': len([c for c in confs if c.get('bound') == 2]), 'scripts at 1 preemption': len([c for c in confs if c.get('bound') == 1])},
+        'bound_completed': {'scripts at 2 preemptions': len([c for c in confs if c.get('bound') == 2]),
+                            'scripts at 1 preemption': len([c for c in confs if c.get('bound') == 1]),
+                            'scripts at 0 preemptions (3 callers)': len([c for c in confs if c.get('bound') == 0]),
+                            'scripts enumerated but not explored (3 callers, other orders / cut frames)':
+                                len([c for c in confs if c.get('bound', 0) is None])},
         'scripts': len(confs),
         'executions_by_preemptions': total.get('by_preemptions', {}),
         'distinct_outcomes': sum(len(v) for v in outcomes.values()),
@@ -566,7 +603,8 @@ def run(cfg):
         'max_points_per_execution': total.get('max_points', 0),
         'executions_leaving_a_future_in_the_pending_table_after_listener_exit (not judged)': total.get('leaked_pending_entries', 0),
         'rule': 'scripts = response orders x cut class per response x fault kind/position (+ close races); for each script '
-                'every schedule of loop / callers / server with at most bound_completed preemptions (3-caller scripts: 1); '
+                'every schedule of loop / callers / server with at most the number of preemptions given in bound_completed '
+                '(the plan is in run()); '
                 'a subset additionally at source-line granularity inside call/_listen/_run/_cleanup_pending_responses; '
                 'states = distinct (per-caller result, verdict) outcomes per script',
     }
